@@ -727,14 +727,11 @@ def mask_scores(matrix, width, height):
                     or not any(seq[max(idx - 4, 0):min(idx, qr_size)]) \
                     or not any(seq[max(offset, 0):min(offset + 4, qr_size)]):
                 count += 40  # N3 = 40
-            else:
-                # Found no / not enough light modules, start at next possible
-                # match:
-                #                   v
-                # dark light dark dark dark light dark
-                #                   ^
-                offset = idx + 4
-            idx = seq.find(n3_pattern, offset)
+            # Start at next possible match (occurrences may overlap):
+            #                   v
+            # dark light dark dark dark light dark
+            #                   ^
+            idx = seq.find(n3_pattern, idx + 4)
         return count
 
     score_n1 = 0
